@@ -245,7 +245,7 @@ def _run_with_pool(pool, tier, seed, B, prog, native, specs, roots, root_nodes, 
             'N': spec.N, 'alphabet': None if spec.alphabet is None else [kname(k) for k in spec.alphabet],
             'symbolic_keys': len(spec.sym_names()), 'depth': res.depth, 'fixpoint': res.fixpoint, 'cut': res.cut,
             'states': res.states, 'transitions': res.transitions, 'paths': res.paths, 'mir_statements': res.mir_steps,
-            'release_all_probes': res.ra_probes, 'key_forks': res.key_forks, 'rest_states': len(res.rest), 'secs': round(res.secs, 2),
+            'release_all_probes': res.ra_probes, 'z3_path_checks': res.z3_path_checks, 'key_forks': res.key_forks, 'rest_states': len(res.rest), 'secs': round(res.secs, 2),
             'c06_stale_rest_states': po['rest_states'], 'c06_pair_states': po['pair_states'], 'c06_pair_fixpoints': po['fixpoints'],
             'c06_pair_cut': po['cut'], 'c06_paths': po['paths'], 'c06_transitions': po.get('transitions', 0),
             'layout': spec.describe() if len(spec.maps) <= 12 else spec.describe()[:6] + ['... %d mappings' % len(spec.maps)],
@@ -361,8 +361,9 @@ def check(prop, tier, seed):
         'layouts_total': len(lays), 'layouts_at_fixpoint': sum(1 for l in lays if l['fixpoint']),
         'paths': sum(l['paths'] for l in lays), 'mir_statements_executed': sum(l['mir_statements'] for l in lays),
         'solver': {'branch decisions on key symbols (native union-find/disequality procedure)': sum(l['key_forks'] for l in lays),
-                   'z3 path-condition checks + models (sampled paths and every violation)': d['validated'],
-                   'note': 'every sampled path condition is re-decided by z3 over Int-sorted key variables ranging over the 484 valid codes; the model is replayed natively'},
+                   'z3 path-condition checks (every path reaching a configuration new to its worker)': sum(l.get('z3_path_checks', 0) for l in lays),
+                   'z3 models replayed natively (sampled paths and every violation)': d['validated'],
+                   'note': 'path conditions are re-decided by z3 over Int-sorted key variables ranging over the 484 valid codes; an unsat answer on an explored path is an engine error (exit 2)'},
         'functions_encoded': d['functions_encoded'],
         'bounds': {'max_keys_held_N': sorted(set(l['N'] for l in lays)), 'depth_cap': max([l['depth'] for l in lays] or [0]),
                    'event_keys': 'fully symbolic over all 484 key codes (sub-alphabet runs: restricted to the listed layout keys plus every foreign key)',
